@@ -182,8 +182,9 @@ def counters(ctx, tree, eng, stateful):
                     sites = [c for c in an.calls if c.targets and any(t.endswith('::step') for t in c.targets) and c.in_loop and
                              c.argvals and _recv_under(c.argvals[0], vpath)]
                     key = '%s|%s[*]' % (b.fid, show_path(vp))
-                    ctx.check(len(sites) == 1, 'C19-1.counters', key, 'one step call per element in one loop over the vector',
-                              '%d step call sites on elements of %s' % (len(sites), show_path(vp)), ctx.where(b))
+                    whole = len(sites) == 1 and all(_is_iter_decision(d) for d in sites[0].pc) and len(sites[0].pc) == 1
+                    ctx.check(whole, 'C19-1.counters', key, 'one step call per element, in one plain loop over the whole vector (no filter / skip / condition)',
+                              '%d step call sites on elements of %s; gate %s' % (len(sites), show_path(vp), [(show(x)[:80], o) for x, o in (sites[0].pc if sites else [])]), ctx.where(b))
                     continue
                 n_ctr += 1
                 full = root + p
@@ -356,7 +357,9 @@ def _recv_is(arg, path, vec):
 
 
 def _is_iter_decision(d):
-    return 'maybe' in show(d[0]) or 'iter' in show(d[0]) or 'next' in show(d[0])
+    """the decision "the collection has another element" of a plain loop — not one behind filter / skip / take_while / ..."""
+    from .common import plain_iteration
+    return plain_iteration(d[0])
 
 
 def _gate_ok(pc):
